@@ -286,6 +286,15 @@ def gen_cases(tier: str, seed: int) -> List[Dict]:
     # constants reduce to numeric order
     add("proxy", S.make_poly_spec("a", ("q0",), [[0]], (3,), rng, 3, zero_prob=0.0, literal_prob=0.0, mode="raw"), graded=False, reverse=False)
     add("argext", S.make_poly_spec("a", ("q0",), [[0]], (3,), rng, 2, zero_prob=0.0, literal_prob=0.3, mode="raw"), options={})
+    # polynomials that store no constant term at all: symbolic coefficients (constant exactly when they all vanish) and the zero
+    # polynomial stored as all-zero non-constant terms (what q1 - q1 is under retain_coefficients=True)
+    for names, exps in [(("q0",), [[1]]), (("q0", "q1"), [[1, 0], [0, 2]]), (("q2", "q10"), [[1, 1]])]:
+        for shape in [(), (2,)]:
+            sp = S.make_poly_spec("a", names, exps, shape, rng, 2, zero_prob=0.5, literal_prob=0.2, mode="raw")
+            add("const", sp, tag_noconst=1)
+            zs = {k: v for k, v in sp.items() if k != "pre"}
+            zs["slots"] = [[0] * len(col) for col in sp["slots"]]
+            add("const", zs, tag_noconst=0)
     for names, exps in monosets:
         for shape in [(), (2,)] + ([] if quick else [(2, 2)]):
             add("const", S.make_poly_spec("a", names, exps[:3] if [0] * len(names) in exps[:3] else [[0] * len(names)] + exps[:2], shape, rng, 3, zero_prob=0.3, literal_prob=0.1, mode=rng.choice(["raw", "clean"])))
